@@ -77,7 +77,7 @@ pub const LABEL_POOL: &[&str] = &[
     "utf-16le", "utf-16", "utf-16be", "hz", "x-user-defined", "  EUC-KR  ", "\nBig5\n", "Shift_JIS", "WINDOWS-1252",
 ];
 
-pub const BAD_LABELS: &[&str] = &["", "utf-9", "latin-99", "cp0", "é", "utf 8", "none", "binary", "replacement", "hz-gb-2312x"];
+pub const BAD_LABELS: &[&str] = &["", " ", "\t", " \n ", "utf-9", "latin-99", "cp0", "é", "utf 8", "none", "binary", "replacement", "hz-gb-2312x"];
 
 pub fn supported() -> Vec<String> {
     charset_normalizer_rs::consts::IANA_SUPPORTED
@@ -137,6 +137,12 @@ pub fn gen_settings(r: &mut Rng, input_len: usize) -> NormalizerSettings {
             s.chunk_size = r.range(8, 512);
         }
         9 if r.chance(1, 3) => {
+            // a huge number of steps with a chunk size of 0 or 1: the product is 0 (never covers a non-empty input) or
+            // covers everything; nothing may be sized by `steps`
+            s.steps = *r.pick(&[usize::MAX, usize::MAX / 2, usize::MAX / 3, 1usize << 62]);
+            s.chunk_size = r.below(2);
+        }
+        9 if r.chance(1, 2) => {
             // a window whose product steps * chunk_size exceeds usize::MAX: it covers every input
             let st = *r.pick(&[2usize, 3, 4, 5, 8, 16]);
             s.steps = st;
@@ -560,4 +566,34 @@ pub fn unprobed_labels() -> Vec<String> {
             None => false,
         })
         .collect()
+}
+
+/// multi-byte text (corpus texts the encoding can represent, with enough multi-byte characters), repeated up to about
+/// `target` bytes behind a 0..3-byte ASCII prefix that shifts the character boundaries
+pub fn multibyte_text(rng: &mut Rng, corpus: &Corpus, target: usize, enc: &'static str) -> Vec<u8> {
+    let mut unit: Vec<u8> = vec![];
+    for _ in 0..80 {
+        let t = rng.pick(&corpus.texts);
+        if let Some(c) = encoding_from_whatwg_label(enc) {
+            if let Ok(b) = c.encode(t, EncoderTrap::Strict) {
+                if b.iter().filter(|x| **x >= 0x80).count() * 3 > b.len() {
+                    unit.extend_from_slice(&b);
+                    unit.push(b'\n');
+                }
+            }
+        }
+        if unit.len() > 30_000 {
+            break;
+        }
+    }
+    if unit.is_empty() {
+        let sample = "\u{3053}\u{308c}\u{306f}\u{65e5}\u{672c}\u{8a9e}\u{306e}\u{6587}\u{7ae0}\u{3067}\u{3059}\u{3002}\u{4f60}\u{597d}\u{4e16}\u{754c}\u{d55c}\u{ad6d}\u{c5b4} ";
+        unit = encode_text(sample, enc).unwrap_or_else(|| sample.as_bytes().to_vec());
+    }
+    let mut b: Vec<u8> = (0..rng.below(4)).map(|_| b'a').collect();
+    while b.len() < target {
+        b.extend_from_slice(&unit);
+    }
+    // cut at a unit boundary so that the text stays valid: the last unit is complete
+    b
 }
